@@ -158,6 +158,7 @@ func TestZZVerifC04(t *testing.T) {
 		hr := rng.Fork(uint64(h))
 		g := gen.New(hr, gen.SessionWeights())
 		g.Focus = true
+		g.EmptyStatus = true
 		g.NodeNames = []string{"n1", "n2", "n1x", "Web-01"} // one mixed-case name: session/node indexes fold case
 		r := fsmkit.New(fsmkit.Opts{})
 		idx := uint64(4)
